@@ -52,6 +52,10 @@ func runC10(c *eng.Ctx) {
 	ruleReadAtAnswersFromTheFile(c)
 	c.Rule("R03.13", "K1")
 	ruleAppendRechecksReadonlyUnderTheLock(c)
+	c.Rule("R03.14", "K1")
+	ruleNothingCommittedMeansWait(c)
+	c.Rule("R03.15", "K3")
+	ruleAppendsWakeParkedCommittedReaders(c)
 	c.Rule("R09.9", "K5")
 	ruleReadPathSkipsDeletedSegments(c)
 	p := c.P
